@@ -795,6 +795,33 @@ Proof.
   destruct (si_stopped _ S H1) as (A & B & C). destruct (si_cb0 _ S H1 H2) as (D & _). auto.
 Qed.
 
+(** C16, restart: Start on a cleanly stopped endpoint produces the state Start produces on a new endpoint of the same
+    capacity and timeout, up to what the environment owns (the history so far, the clock, whether the network accepts
+    writes).  Start itself discards a ready token and conclusions the previous Stop overtook (the repaired defects F31 /
+    F32), so nothing else has to be assumed about the stopped state than what [stopped_is_clean_S0] establishes. *)
+Definition same_modulo_env (a b : cl) : Prop :=
+  started a = started b /\ closing a = closing b /\ pumpStuck a = pumpStuck b /\ paused a = paused b /\
+  rdy a = rdy b /\ q a = q b /\ cap a = cap b /\ pend a = pend b /\ reqC a = reqC b /\ readyC a = readyC b /\
+  tmo a = tmo b /\ tok a = tok b /\ timeout a = timeout b /\ conn a = conn b /\
+  cbq a = cbq b /\ concC a = concC b /\ handlerOn a = handlerOn b /\ stopSig a = stopSig b.
+
+Lemma restart_state_fresh s :
+  started s = false -> pend s = 0 -> q s = [] -> cbq s = [] -> closing s = false ->
+  same_modulo_env (step Start s) (step Start (init (cap s) (timeout s))).
+Proof.
+  intros H1 H2 H3 H4 H5. destruct s; cbn in *; subst. cbn. repeat split.
+Qed.
+
+Theorem restart_fresh_S0 : forall c t ls, Forall wf_lab ls -> run_ok ls (init c t) = true ->
+  let s := run ls (init c t) in
+  started s = false -> stopSig s = false ->
+  same_modulo_env (step Start s) (step Start (init (cap s) (timeout s))).
+Proof.
+  intros c t ls Hw Hok s H1 H2.
+  destruct (stopped_is_clean_S0 c t ls Hw Hok H1 H2) as (A & B & C & D).
+  apply restart_state_fresh; assumption.
+Qed.
+
 (* ------------------------------------------------------------------ *)
 (** * non-vacuity: a concrete non-trivial history is in class S0 and exercises every clause *)
 
